@@ -332,7 +332,7 @@ def explore_longlog(case):
     topic), with periodic publishers on integer periods and a relay / forwarding subscriber set"""
     tier, di, subs = case["tier"], case["dt_index"], case["subs"]
     res = core.Result()
-    rows_wanted = 2000 if tier == "thorough" else 700
+    rows_wanted = case.get("rows") or (2000 if tier == "thorough" else 700)
     top = dict(subs=list(subs), logger=True, nodes=[True, False], periods=(1, 2))
     b = Bus(top, None)
     try:
@@ -378,7 +378,9 @@ class _LongLog:
     chunks = 1
 
     def cases(self, tier, seed):
-        return [dict(sub="longlog", tier=tier, dt_index=i, subs=s) for i in range(len(LONG_DTS)) for s in ((), (0, 2, 3))]
+        # the last two: tens of thousands of rows (a bounded buffer, a counter that wraps, a table that is rebuilt every so many rows)
+        return [dict(sub="longlog", tier=tier, dt_index=i, subs=s) for i in range(len(LONG_DTS)) for s in ((), (0, 2, 3))] + \
+               [dict(sub="longlog", tier=tier, dt_index=2, subs=(), rows=(70000 if tier == "quick" else 280000)), dict(sub="longlog", tier=tier, dt_index=0, subs=(0,), rows=(33000 if tier == "quick" else 140000))]
 
     def run(self, case):
         return explore_longlog(case)
@@ -546,7 +548,7 @@ class Spy:
 DTS = [-20e-3, -1e-3, 0.0, 1e-3, 4e-3, 5e-3, 6e-3, 20e-3]
 
 
-def run_est(initialize, dt_min, word, reuse_msgs=False):
+def run_est(initialize, dt_min, word, reuse_msgs=False, t0=0.01, keep_ref=True):
     """reuse_msgs: the publisher keeps ONE message object per topic and overwrites its fields for every publication (as the packaged
     Simulator does) instead of allocating a fresh message"""
     dt_min_accel, dt_min_mag = dt_min
@@ -555,11 +557,17 @@ def run_est(initialize, dt_min, word, reuse_msgs=False):
     pub_mag = uros.Publisher(c, "mag", msgs.Mag)
     spy = Spy()
     with contextlib.redirect_stdout(io.StringIO()):
-        est = AttitudeEstimator(c, "mrp", spy.eqs(), initialize)
+        if keep_ref:
+            est = AttitudeEstimator(c, "mrp", spy.eqs(), initialize)
+        else:
+            # the node is constructed and not kept by the caller (the bus holds its subscriptions); a collection runs before the first message
+            AttitudeEstimator(c, "mrp", spy.eqs(), initialize)
+            import gc
+            gc.collect()
         c.init_params()
         c.set_param("mrp/dt_min_accel", dt_min_accel)
         c.set_param("mrp/dt_min_mag", dt_min_mag)
-        t = 0.01
+        t = t0
         log = []
         keep = {"imu": msgs.Imu(), "mag": msgs.Mag()}
         for sensor, dt in word:
@@ -596,7 +604,7 @@ def explore_est(case):
             res.count("states", len(word))
             res.count("traces_validated_against_impl", len(word))
             try:
-                log = run_est(initialize, dt_min, word, reuse_msgs=reuse)
+                log = run_est(initialize, dt_min, word, reuse_msgs=reuse, t0=case.get("t0", 0.01), keep_ref=case.get("keep_ref", True))
             except Exception as ex:
                 res.fail(site="AttitudeEstimator", clause="no_exception", cls="init=%s" % initialize, detail=dict(word=list(word), error="%s: %s" % (type(ex).__name__, str(ex)[:200])),
                          sub="est", case=case)
@@ -609,6 +617,12 @@ def explore_est(case):
             last = dict(accel=None, mag=None)
             info = dict(initialize=initialize, dt_min=dt_min, word=[list(w) for w in word])
             t_prev_imu = 0.0
+            if not case.get("keep_ref", True):
+                # differential: the same word on a node the caller keeps
+                log_kept = run_est(initialize, dt_min, word, reuse_msgs=reuse, t0=case.get("t0", 0.01), keep_ref=True)
+                if [l[2] for l in log] != [l[2] for l in log_kept]:
+                    res.fail(site="AttitudeEstimator", clause="node_not_kept_by_the_caller_behaves_like_a_kept_one", cls="unreferenced_node",
+                             detail=dict(info, calls=[l[2] for l in log], calls_of_kept_node=[l[2] for l in log_kept]), sub="est", case=case)
             for sensor, t, calls, preds in log:
                 if sensor == "imu":
                     if inited and t - t_prev_imu > 0 and "predict" not in calls:
@@ -626,7 +640,7 @@ def explore_est(case):
                         res.fail(site="AttitudeEstimator", clause="nothing_before_initialisation", cls="init=%s" % initialize, detail=dict(info, t=t, call=cname), sub="est", case=case)
                     if cname in ("accel", "mag"):
                         lim = dt_min[0] if cname == "accel" else dt_min[1]
-                        if last[cname] is not None and t - last[cname] < lim - 1e-3 - 1e-12:
+                        if last[cname] is not None and t - last[cname] < lim - 1e-3 - 1e-12 * (1 + abs(t)) * 4:
                             res.fail(site="AttitudeEstimator", clause="%s_corrections_rate_limited" % cname, cls="dt_min=%g/%g" % tuple(dt_min),
                                      detail=dict(info, t=t, previous=last[cname], gap=t - last[cname]), sub="est", case=case)
                         last[cname] = t
@@ -971,6 +985,9 @@ class _Est:
         out = [dict(sub="est", tier=tier, initialize=i, dt_min=d, first=f) for i in (True, False) for d in ((5e-3, 5e-3), (20e-3, 20e-3), (5e-3, 20e-3), (20e-3, 5e-3)) for f in range(16)]
         # the same words with one message object per topic reused by the publisher
         out += [dict(sub="est", tier=tier, initialize=i, dt_min=(5e-3, 20e-3), first=f, reuse_msgs=True) for i in (True, False) for f in range(16)]
+        # time stamps far from zero (a log replayed with its absolute stamps, a long mission), and a node the caller does not keep a reference to
+        out += [dict(sub="est", tier=tier, initialize=i, dt_min=(5e-3, 20e-3), first=f, t0=t0_) for i in (True, False) for f in range(16) for t0_ in (4096.0, 1.0e6)]
+        out += [dict(sub="est", tier=tier, initialize=False, dt_min=(5e-3, 20e-3), first=f, keep_ref=False) for f in range(16)]
         return out
 
     def run(self, case):
